@@ -70,7 +70,7 @@ func verifCrcArgsOK(b []byte) bool { return true }
 const vMaxPayload = 16
 
 func VerifH_ck() {
-	max := 4
+	max := 8
 	if verifFlag("thorough") {
 		max = vMaxPayload
 	}
